@@ -100,7 +100,7 @@ def decodeScan (sv1 : Bool) (P predictor w h nc : Nat) (t : Table) (data : List 
         | some (v, d2) => pure (if category ≥ 64 then (v : Int) else receiveLosslessDifference category v, d2)
     let nb ← readNb s c w row col
     let predicted := if sv1 then sv1Predicted P row col nb else decPredicted P predictor row col nb
-    let sample := decSample P predicted diff
+    let sample := if sv1 then sv1DecSample P predicted diff else decSample P predicted diff
     let s' ← writeS s c (row * w + col) sample
     pure (d2, s')
   pure r.2
